@@ -14,6 +14,8 @@ from ..store import roots_of, interior_point
 from ..values import Unsupported
 from .common import find_entry, interiors, entry_summary, short, CATALOGUE
 
+CASE_SPLIT = True     # orderings between different grid sizes are analysed case by case (regions.run_under_size_cases)
+
 
 # ---------------------------------------------------------------------------- (a) Brinkmann
 def convexity(rep, inst, e, field, target, assume):
